@@ -79,7 +79,7 @@ type Trailing struct {
 
 type Big struct {
 	A, B, C, D int64
-	S       string
+	S          string
 }
 
 type NM2 map[string]int
@@ -190,3 +190,33 @@ type I8 int8
 func (i I8) Get() int { return int(i) }
 
 func Itoa(i int) string { return strconv.Itoa(i) }
+
+// ---- unexported embedded struct types with exported fields (flagEmbedRO must not stick to their exported fields)
+
+type Celsius float64
+
+func (c Celsius) String() string { return strconv.Itoa(int(c*10)) + "dC" }
+
+type inner struct {
+	Temp Celsius
+	Err  error
+	N    int
+	low  int
+}
+
+type OuterV struct {
+	inner
+	Z int
+}
+
+type OuterP struct {
+	*inner
+	Z int
+}
+
+type myErr struct{ S string }
+
+func (e myErr) Error() string { return "err:" + e.S }
+
+func MkOuterV() *OuterV { return &OuterV{inner{21.5, myErr{"v"}, 3, 4}, 9} }
+func MkOuterP() *OuterP { return &OuterP{&inner{-4, myErr{"p"}, 5, 6}, 8} }
